@@ -1,0 +1,105 @@
+/*  verif-vm.c -- runtime-monitoring hooks for the VM scheduler entry  */
+/*  Included from vm.c only when compiled with -DCHIBI_VERIF.          */
+/*                                                                     */
+/*  H4  time-slice injection: the length of every quantum is taken     */
+/*      from CHIBI_VERIF_SCHED = seed:<S>:<maxslice> | list:<a,b,c,..>[:<default>] */
+/*      and a deadlock detector that turns "nothing can ever run" into */
+/*      an event (log line + exit code 86) instead of a hang.          */
+
+#include <stdlib.h>
+#include <stdint.h>
+#include <string.h>
+
+extern void sexp_verif_logf (const char *fmt, ...);
+
+static int verif_sched_mode = -1;    /* 0 off, 1 seed, 2 list */
+static uint64_t verif_sched_state;
+static long verif_sched_max = 500, verif_sched_default = 0;
+static long *verif_sched_list, verif_sched_list_len, verif_sched_list_pos;
+static long verif_sched_slices, verif_sched_switches, verif_dl_checks;
+static uint64_t verif_sched_hash = 1469598103934665603ULL;
+static void *verif_sched_last;
+#define VERIF_MAX_THREADS 64
+static void *verif_sched_threads[VERIF_MAX_THREADS]; static int verif_sched_nthreads;
+
+static void verif_sched_report (void) {
+  sexp_verif_logf("SCHED-SUMMARY slices=%ld switches=%ld threads=%d hash=%016llx deadlock_checks=%ld\n",
+                  verif_sched_slices, verif_sched_switches, verif_sched_nthreads,
+                  (unsigned long long)verif_sched_hash, verif_dl_checks);
+}
+
+static void verif_sched_init (void) {
+  const char *e = getenv("CHIBI_VERIF_SCHED"), *p;
+  long a = 0, b = 0, n;
+  verif_sched_mode = 0;
+  if (!e || !*e) return;
+  if (sscanf(e, "seed:%ld:%ld", &a, &b) >= 1) {
+    verif_sched_mode = 1;
+    verif_sched_state = (uint64_t)a * 0x9E3779B97F4A7C15ULL + 0x2545F4914F6CDD1DULL;
+    if (b > 0) verif_sched_max = b;
+  } else if (strncmp(e, "list:", 5) == 0) {
+    verif_sched_mode = 2;
+    for (n = 1, p = e + 5; *p && *p != ':'; p++) if (*p == ',') n++;
+    verif_sched_list = calloc(n, sizeof(long));
+    for (p = e + 5; *p && *p != ':'; ) {
+      verif_sched_list[verif_sched_list_len++] = strtol(p, (char**)&p, 10);
+      if (*p == ',') p++;
+      else if (*p != ':' && *p) break;
+    }
+    if (*p == ':') verif_sched_default = atol(p + 1);
+  }
+  if (verif_sched_mode) atexit(verif_sched_report);
+}
+
+static sexp_sint_t verif_slice (sexp ctx, sexp_sint_t fuel) {
+  sexp_sint_t res = fuel;
+  int i;
+  if (verif_sched_mode < 0) verif_sched_init();
+  if (!verif_sched_mode || fuel <= 0) return fuel;
+  if (verif_sched_mode == 1) {
+    verif_sched_state ^= verif_sched_state << 13; verif_sched_state ^= verif_sched_state >> 7; verif_sched_state ^= verif_sched_state << 17;
+    res = 1 + (sexp_sint_t)(verif_sched_state % (uint64_t)verif_sched_max);
+  } else if (verif_sched_list_pos < verif_sched_list_len) {
+    res = verif_sched_list[verif_sched_list_pos++];
+    if (res <= 0) res = 1;
+  } else if (verif_sched_default > 0) {
+    res = verif_sched_default;
+  }
+  verif_sched_slices++;
+  if ((void*)ctx != verif_sched_last) {
+    verif_sched_last = (void*)ctx;
+    verif_sched_switches++;
+    for (i = 0; i < verif_sched_nthreads && verif_sched_threads[i] != (void*)ctx; i++) ;
+    if (i == verif_sched_nthreads && i < VERIF_MAX_THREADS) verif_sched_threads[verif_sched_nthreads++] = (void*)ctx;
+    verif_sched_hash = (verif_sched_hash ^ (uint64_t)(i + 1)) * 1099511628211ULL;
+  }
+  verif_sched_hash = (verif_sched_hash ^ (uint64_t)res) * 1099511628211ULL;
+  return res;
+}
+
+/* The scheduler handed back a thread that is still waiting.  If the run */
+/* queue is empty, no signal is pending and every paused thread (and the */
+/* current one) waits without timeout on something that is neither a     */
+/* port nor a file descriptor, no event can ever arrive: report it.      */
+static void verif_deadlock_check (sexp ctx) {
+  sexp ls, t;
+  int dead;
+  if (verif_sched_mode <= 0 && !getenv("CHIBI_VERIF_DEADLOCK")) return;
+  verif_dl_checks++;
+  dead = !sexp_pairp(sexp_global(ctx, SEXP_G_THREADS_FRONT))
+    && sexp_global(ctx, SEXP_G_THREADS_SIGNALS) == SEXP_ZERO
+    && sexp_context_timeval(ctx).tv_sec == 0 && sexp_context_timeval(ctx).tv_usec == 0
+    && !sexp_portp(sexp_context_event(ctx)) && !sexp_fixnump(sexp_context_event(ctx));
+  for (ls = sexp_global(ctx, SEXP_G_THREADS_PAUSED); dead && sexp_pairp(ls); ls = sexp_cdr(ls)) {
+    t = sexp_car(ls);
+    if (sexp_context_timeval(t).tv_sec || sexp_context_timeval(t).tv_usec
+        || sexp_portp(sexp_context_event(t)) || sexp_fixnump(sexp_context_event(t))
+        || !sexp_context_waitp(t))
+      dead = 0;
+  }
+  if (dead) {
+    sexp_verif_logf("DEADLOCK slices=%ld switches=%ld\n", verif_sched_slices, verif_sched_switches);
+    verif_sched_report();
+    _exit(86);
+  }
+}
